@@ -9,6 +9,7 @@
  * measure exists in this model) - the two inner loops have decreases clauses.
  */
 #include "units/veru_model.h"
+static void icmp_hook(const ldb_slice_t *x, const ldb_slice_t *y, int res) { (void)x; (void)y; (void)res; }
 static void push_hook(const void *x) { (void)x; }
 static void push_other_hook(void) { }
 
